@@ -1,6 +1,7 @@
 import PikaVerif.Props.C19
 import PikaVerif.Lemmas.ElasticT
 import PikaVerif.Lemmas.ElasticFin
+import PikaVerif.Lemmas.ElasticFin2
 /-!
 # C19t — termination of suspend / resume (follow-up of C19)
 
@@ -49,6 +50,15 @@ characterises maximal states, `C19t_calls_returned` is "the calls themselves ret
 runs — under the hypothesis that the shared low-priority queue is empty, which is necessary:
 `C19t_low_priority_livelock` (finding `lowprio-last-worker` of notes/C19.md as a `decide`-checked
 maximal state in which a suspender waits for ever).
+
+**Stealing and pending resume calls.**  `MaximalR N R s` (`Lemmas/ElasticFin2.lean`) adds two owed
+steps: with `enable_stealing` a worker that is `running` in its loop takes work queued on ANY worker,
+and a pending `resume_processing_unit` call on a worker in `R` notifies as long as that worker is
+inside `wait` un-notified.  `C19t_maximalR_exists` (same bound), `C19t_work_executed_by_others`
+(with stealing and one running worker every queue is empty in a maximal state: work queued on a
+suspended worker is executed by the other workers), `C19t_resume_returned` (a worker with a pending
+resume call is not `sleeping` in a maximal state: the resume loop's exit test succeeds, the worker is
+back in its loop and — low-priority queue empty — `running` with its own queue taken).
 -/
 namespace PikaVerif.C19t
 open PikaVerif PikaVerif.Elastic PikaVerif.C19
@@ -244,6 +254,58 @@ theorem C19t_weight_formula (log : List Ev) : wsum log = 6 * nReq log + nUnit lo
     simp only [wsum, nReq, nUnit, ih]
     rcases weight_cases e with h | h | h <;> simp [h] <;> omega
 
+/-- number of events of a log satisfying `p` -/
+def cnt (p : Ev → Bool) : List Ev → Nat
+  | [] => 0
+  | e :: es => b2n (p e) + cnt p es
+
+/-- a successful suspension request: the CAS `running → pre_sleep` of `suspend_processing_unit_internal`
+    (under the pu mutex) or of the pool's `suspend_internal` (without) -/
+def isReq : Ev → Bool
+  | .cas _ _ b _ => decide (b = rsRunning)
+  | .ucas _ _ b _ => decide (b = rsRunning)
+  | _ => false
+/-- a placement: a queue counter of a worker, or of the shared low-priority queue, `+1` -/
+def isPlace : Ev → Bool
+  | .inc _ _ => true
+  | .incLow _ => true
+  | _ => false
+def isSelOk : Ev → Bool
+  | .sel _ _ _ _ _ ok => ok
+  | _ => false
+def isSlock : Ev → Bool
+  | .slock _ _ => true
+  | _ => false
+def isRefuse : Ev → Bool
+  | .refuse _ => true
+  | _ => false
+
+/-- the weight of a log, by kind of source -/
+theorem C19t_weight_by_kind (log : List Ev) :
+    wsum log = 6 * cnt isReq log + cnt isPlace log + cnt isSelOk log + cnt isSlock log + cnt isRefuse log := by
+  induction log with
+  | nil => rfl
+  | cons e es ih =>
+    simp only [wsum, cnt, ih]
+    cases e with
+    | sel a w v mx owns ok => cases ok <;> simp [weight, isReq, isPlace, isSelOk, isSlock, isRefuse, b2n] <;> omega
+    | cas a w b af => by_cases h : b = rsRunning <;> simp [weight, isReq, isPlace, isSelOk, isSlock, isRefuse, b2n, h] <;> omega
+    | ucas a w b af => by_cases h : b = rsRunning <;> simp [weight, isReq, isPlace, isSelOk, isSlock, isRefuse, b2n, h] <;> omega
+    | _ => simp [weight, isReq, isPlace, isSelOk, isSlock, isRefuse, b2n] <;> omega
+
+/-- **`B(k, m, workers)`.**  An accepted log of a pool with `W` workers in which the controller made
+    `kpu` PU-suspend calls (one `slock` and at most one successful request each), `kpool` pool-suspend
+    calls (at most one successful request per worker each), any number of resume calls, `r` refused
+    calls, and the submitters `m` placements (at most one successful selection each) has at most
+    `7 kpu + 6 W kpool + 2 m + r` effective events. -/
+theorem C19t_bound_calls (cfg : Cfg) (log : List Ev) (s : St) (h : runLog step (init cfg) log = some s)
+    (W kpu kpool m r : Nat) (h1 : cnt isSlock log ≤ kpu) (h2 : cnt isReq log ≤ kpu + W * kpool)
+    (h3 : cnt isPlace log ≤ m) (h4 : cnt isSelOk log ≤ m) (h5 : cnt isRefuse log ≤ r) :
+    nEff (init cfg) log ≤ 7 * kpu + 6 * (W * kpool) + 2 * m + r := by
+  have hb := (C19t_bounded cfg log s h).1
+  have hw := C19t_weight_by_kind log
+  omega
+
 /-- **Maximal runs exist and are short.**  Every reachable state extends — by owed steps only: no
     new call, placement, request or wake-up without notify (total weight 0) — to a maximal state
     within `3 * mu N s` events, hence within three times the weight of the log that led to `s`. -/
@@ -332,6 +394,47 @@ theorem C19t_calls_returned (cfg : Cfg) (N : Nat) (s : St) (hr : Reachable cfg s
     | true => exact Or.inl rfl
     | false => exact Or.inr (hi.strand (Or.inr hp) hd)
 
+/-- **Maximal runs with stealing and pending resume calls exist and are short.** -/
+theorem C19t_maximalR_exists (cfg : Cfg) (N : Nat) (R : Nat → Bool) (log : List Ev) (s : St)
+    (h : runLog step (init cfg) log = some s) (hN : ∀ e, e ∈ log → inR N e = true) :
+    ∃ ext s', runLog step s ext = some s' ∧ Reachable cfg s' ∧ MaximalR N R s' ∧
+      ext.length ≤ 3 * mu N s ∧ ext.length ≤ 3 * wsum log ∧ wsum ext = 0 := by
+  have hi : Inv s := inv_of_accepted h
+  obtain ⟨ext, s', hrun, hmax, hlen, hw, _⟩ := exists_maximalR N R (mu N s) s hi (Nat.le_refl _)
+  have hb := C19t_bounded_mu cfg N log s h hN
+  refine ⟨ext, s', hrun, ⟨log ++ ext, ?_⟩, hmax, hlen, by omega, hw⟩
+  rw [runLog_append, h]; simpa using hrun
+
+/-- `MaximalR` is stronger than `Maximal`: `C19t_final_state` and `C19t_calls_returned` apply. -/
+theorem C19t_maximalR_maximal (N : Nat) (R : Nat → Bool) (s : St) (h : MaximalR N R s) : Maximal N s := h.1
+
+/-- **Work queued on a suspended worker is executed by the other workers.**  With
+    `enable_stealing`, in a reachable maximal state in which at least one started worker `v < N` is
+    `running` in its scheduling loop, the queues of ALL workers `< N` are empty — also those of
+    sleeping workers (the escalated / unguarded placements that `C19_no_strand` allows there). -/
+theorem C19t_work_executed_by_others (cfg : Cfg) (N : Nat) (R : Nat → Bool) (s : St) (hr : Reachable cfg s)
+    (hm : MaximalR N R s) (hs : cfg.stealing = true) (v b : Nat) (hv : v < N)
+    (ha : (s.wk v).actor = some b) (hpc : (s.wk v).pc = .loop) (hst : (s.wk v).st = rsRunning) :
+    ∀ w, w < N → (s.wk w).q = 0 := by
+  intro w hw
+  exact stolen_of_maximalR N R s hm (by rw [cfg_of_reachable hr]; exact hs) v hv b ha hpc hst w hw
+
+/-- **`resume_processing_unit` has returned (maximal runs).**  In a reachable maximal state a
+    worker `w < N` with a pending resume call is not `sleeping` and its thread is back in the
+    scheduling loop: the resume loop's test `state == sleeping` fails on the state it reads, the call
+    returns.  If moreover the worker was started and the shared low-priority queue is empty, no
+    suspension request is pending on it either and everything queued on it has been taken. -/
+theorem C19t_resume_returned (cfg : Cfg) (N : Nat) (R : Nat → Bool) (s : St) (hr : Reachable cfg s)
+    (hm : MaximalR N R s) (w : Nat) (hw : w < N) (hR : R w = true) :
+    (s.wk w).st ≠ rsSleeping ∧ (s.wk w).pc = .loop ∧
+    (∀ b, step s (.rload b w (s.wk w).st) = some s) ∧
+    ((s.wk w).actor ≠ none → s.lowq = 0 → (s.wk w).st ≠ rsPreSleep ∧ (s.wk w).q = 0 ∧ (s.wk w).waiters = []) := by
+  obtain ⟨h1, h2⟩ := resumed_of_maximalR N R s (inv_of_reachable hr) hm w hw hR
+  refine ⟨h1, h2, fun b => by simp [step], ?_⟩
+  intro hs hlow
+  obtain ⟨c1, _, c3, _, c5, _⟩ := C19t_calls_returned cfg N s hr hm.1 hlow w hw hs
+  exact ⟨c3, (c5 h1).2.1, c1⟩
+
 /-- the finding `lowprio-last-worker` as a history: worker 1 is the last worker; a low-priority task
     is staged; actor 9 asks worker 1 to sleep -/
 def lowLog : List Ev :=
@@ -383,6 +486,11 @@ example : wsum C19.exampleLog = 11 ∧ nEff (init cfg2) C19.exampleLog = 11 ∧ 
 
 example : (runLog step (init cfg2) C19.exampleLog).map (mu 10) = some 0 := by decide
 
+/-- its sources by kind: 1 request, 2 placements, 2 successful selections, 1 `slock`, no refusal:
+    `kpu = 1, kpool = 0, m = 2, r = 0` gives `B = 11` in `C19t_bound_calls` — attained -/
+example : (cnt isReq C19.exampleLog, cnt isPlace C19.exampleLog, cnt isSelOk C19.exampleLog,
+    cnt isSlock C19.exampleLog, cnt isRefuse C19.exampleLog) = (1, 2, 2, 1, 0) := by decide
+
 def exSt : St := (runLog step (init cfg2) C19.exampleLog).getD (init cfg2)
 
 example : Maximal 10 exSt ∧ (exSt.wk 0).st = rsRunning ∧ (exSt.wk 0).q = 0 ∧ (exSt.wk 1).q = 0 := by decide
@@ -405,6 +513,26 @@ example : (runLog step (init cfg2)
     [.start 1 0 0, .rload 8 0 rsRunning, .rload 8 0 rsRunning, .notify 8 0, .notify 8 0, .qlen 5 0 0,
      .ret 8, .ret 8, .top 0 rsRunning, .qlen 1 0 0, .chk 0 rsRunning false, .top 0 rsRunning]).map
       (fun s => (mu 10 s, (s.wk 0).st)) = some (0, rsRunning) := by decide
+
+/-- with a pending resume call on worker 0 the sleeping state is not maximal (a notify is owed);
+    without one it is (`MaximalR` is inhabited on both sides) -/
+example : MaximalR 10 (fun _ => false) sleepSt ∧ ¬ MaximalR 10 (fun w => w == 0) sleepSt := by decide
+
+/-- an escalated placement on the sleeping worker 0 while worker 1 runs: `Maximal` without
+    stealing steps, but the take by worker 1's thread is owed under `MaximalR`; after it every queue
+    is empty (`C19t_work_executed_by_others` is not vacuous) -/
+def stealLog : List Ev :=
+  [.start 1 0 0, .start 2 1 0, .slock 9 0, .cas 9 0 rsRunning rsPreSleep, .sunl 9 0, .top 0 rsPreSleep,
+   .qlen 1 0 0, .chk 0 rsPreSleep true, .sleep 0, .wait 0, .sel 7 0 rsSleeping rsSleeping true true,
+   .inc 7 0, .unl 7 0]
+
+def stealSt : St := (runLog step (init cfg2) stealLog).getD (init cfg2)
+def stolenSt : St := (runLog step (init cfg2) (stealLog ++ [.dec 2 0])).getD (init cfg2)
+
+example : (runLog step (init cfg2) (stealLog ++ [.dec 2 0])).isSome = true ∧ Maximal 10 stealSt ∧
+    ¬ MaximalR 10 (fun _ => false) stealSt ∧ (stealSt.wk 0).q = 1 ∧ (stealSt.wk 0).st = rsSleeping ∧
+    MaximalR 10 (fun _ => false) stolenSt ∧ (stolenSt.wk 0).q = 0 ∧ (stolenSt.wk 0).st = rsSleeping ∧
+    (stolenSt.wk 1).st = rsRunning := by decide
 
 /-- a state satisfying the hypotheses of `C19t_resumed_takes_work`: an escalated placement on a
     sleeping worker, then the notify of a resume call -/
